@@ -9,4 +9,5 @@ cd /repo && git diff --quiet || { echo "/repo has uncommitted changes: fixtures 
 cd "$ROOT/harness" && CARGO_TARGET_DIR="$ROOT/harness/target" cargo build --release --offline 2>&1 | tail -1
 mkdir -p "$ROOT/fixtures"
 "$ROOT/harness/target/release/cwv" cw20 --mode mkfixtures --random 40 --len 30 --seed 7 --out "$ROOT/fixtures/cw20.ndjson" || exit 2
+"$ROOT/harness/target/release/cwv" cw1 --mode mkfixtures --random 30 --len 30 --seed 7 --out "$ROOT/fixtures/cw1.ndjson" || exit 2
 wc -l "$ROOT"/fixtures/*.ndjson
